@@ -236,21 +236,21 @@ Section Refinement.
 
   (** from_password for revisions 2-4 is Algorithm 6 followed by Algorithm 7, for every dictionary, document id and
       password, whenever the key length is 1..16 bytes *)
-  Theorem from_password_rc4_refines : forall R bits n m d id0 pass,
+  Theorem from_password_rc4_refines : forall R bits n m ms d id0 pass,
     2 <= R <= 4 -> bits / 8 = n -> 1 <= n <= 16 ->
-    from_password_rc4 md5 R bits m d id0 pass =
+    from_password_rc4 md5 R bits m ms d id0 pass =
       match alg6 MD5 R n pass (d_o d) (d_u d) (d_p d) id0 (d_em d) with
-      | Some _ => Ok (decoder_new (alg2_full R n pass (d_o d) (d_p d) id0 (d_em d) ++ []) n m (d_em d || (d_v d <? 4)%Z))
+      | Some _ => Ok (decoder_with (alg2_full R n pass (d_o d) (d_p d) id0 (d_em d) ++ []) n m ms (d_em d || (d_v d <? 4)%Z))
       | None =>
           let upw := if R =? 2 then rc4_raw (owner_key MD5 R n pass) (d_o d)
                      else rc4_passes (rev (xkeys (owner_key MD5 R n pass) 0 20)) (d_o d) in
           match alg6 MD5 R n upw (d_o d) (d_u d) (d_p d) id0 (d_em d) with
-          | Some _ => Ok (decoder_new (alg2_full R n upw (d_o d) (d_p d) id0 (d_em d) ++ []) n m (d_em d || (d_v d <? 4)%Z))
+          | Some _ => Ok (decoder_with (alg2_full R n upw (d_o d) (d_p d) id0 (d_em d) ++ []) n m ms (d_em d || (d_v d <? 4)%Z))
           | None => Err E_INVALID_PASSWORD
           end
       end.
   Proof.
-    intros R bits n m d id0 pass HR Hb Hn. unfold from_password_rc4. rewrite Hb.
+    intros R bits n m ms d id0 pass HR Hb Hn. unfold from_password_rc4. rewrite Hb.
     replace (n =? 0) with false by (symmetry; apply N.eqb_neq; lia).
     rewrite kd_user_spec by exact Hn. cbn [bind].
     replace (N.min n 16) with n by lia.
@@ -278,13 +278,13 @@ Section Refinement.
   Qed.
 
   (* ------------------------------------------------------------ corollaries at the level of Decoder::from_password *)
-  Definition std_rc4_dict (d : crypt_dict) (R n : N) (m : method) : Prop :=
-    crypt_method d = Ok (8 * n, m) /\ d_r d = R /\ 2 <= R <= 4 /\ 1 <= n <= 16.
+  Definition std_rc4_dict (d : crypt_dict) (R n : N) (m ms : method) : Prop :=
+    crypt_method d = Ok (8 * n, m, ms) /\ d_r d = R /\ 2 <= R <= 4 /\ 1 <= n <= 16.
 
   Notation FP := (from_password md5 sha256 sha384 sha512 aes_enc aes_dec prep).
 
-  Lemma from_password_rc4_entry fuel d id0 pass R n m : std_rc4_dict d R n m ->
-    FP fuel d id0 pass = from_password_rc4 md5 R (8 * n) m d id0 pass.
+  Lemma from_password_rc4_entry fuel d id0 pass R n m ms : std_rc4_dict d R n m ms ->
+    FP fuel d id0 pass = from_password_rc4 md5 R (8 * n) m ms d id0 pass.
   Proof.
     intros (Hcm & Hr & HR & Hn). unfold from_password. rewrite Hcm. cbn [bind]. rewrite Hr.
     replace (2 <=? R) with true by (symmetry; apply N.leb_le; lia).
@@ -296,8 +296,8 @@ Section Refinement.
   Lemma div8 n : 8 * n / 8 = n.
   Proof. rewrite N.mul_comm. apply N.div_mul. discriminate. Qed.
 
-  Definition opens_with (r : res decoder) (n : N) (fk : bytes) (m : method) (em : bool) : Prop :=
-    exists dc, r = Ok dc /\ k_size dc = n /\ take n (k_key dc) = fk /\ k_method dc = m /\
+  Definition opens_with (r : res decoder) (n : N) (fk : bytes) (m ms : method) (em : bool) : Prop :=
+    exists dc, r = Ok dc /\ k_size dc = n /\ take n (k_key dc) = fk /\ k_method dc = m /\ k_smethod dc = ms /\
                k_enc_obj dc = None /\ k_meta_obj dc = None /\ k_em dc = em.
 
   Definition u_entry (R : N) (fk id0 tail : bytes) : bytes := if R =? 2 then alg4 fk else alg5 MD5 fk id0 tail.
@@ -308,16 +308,16 @@ Section Refinement.
     unfold alg5. rewrite take_app_exact by apply alg5_sig_len. apply bytes_eqb_refl.
   Qed.
 
-  Theorem open_user_rc4 : forall fuel d id0 upw R n m tail, std_rc4_dict d R n m ->
+  Theorem open_user_rc4 : forall fuel d id0 upw R n m ms tail, std_rc4_dict d R n m ms ->
     let fk := alg2 MD5 R n upw (d_o d) (d_p d) id0 (d_em d) in
     d_u d = u_entry R fk id0 tail ->
-    opens_with (FP fuel d id0 upw) n fk m (d_em d || (d_v d <? 4)%Z).
+    opens_with (FP fuel d id0 upw) n fk m ms (d_em d || (d_v d <? 4)%Z).
   Proof.
-    intros fuel d id0 upw R n m tail Hd fk HU. rewrite (from_password_rc4_entry fuel d id0 upw R n m Hd).
+    intros fuel d id0 upw R n m ms tail Hd fk HU. rewrite (from_password_rc4_entry fuel d id0 upw R n m ms Hd).
     destruct Hd as (Hcm & Hr & HR & Hn).
-    rewrite (from_password_rc4_refines R (8 * n) n m d id0 upw HR (div8 n) Hn).
+    rewrite (from_password_rc4_refines R (8 * n) n m ms d id0 upw HR (div8 n) Hn).
     rewrite alg6_unfold. fold fk. rewrite HU, u_entry_matches.
-    eexists. split; [reflexivity|]. cbn [decoder_new k_size k_key k_method k_enc_obj k_meta_obj k_em].
+    eexists. split; [reflexivity|]. cbn [decoder_with k_size k_key k_method k_smethod k_enc_obj k_meta_obj k_em].
     rewrite app_nil_r. repeat split; reflexivity.
   Qed.
 
@@ -334,41 +334,41 @@ Section Refinement.
       rewrite <- xkeys_0_20, rc4_passes_rev. apply rc4_passes_twice.
   Qed.
 
-  Theorem open_owner_rc4 : forall fuel d id0 upw opw R n m tail, std_rc4_dict d R n m ->
+  Theorem open_owner_rc4 : forall fuel d id0 upw opw R n m ms tail, std_rc4_dict d R n m ms ->
     d_o d = alg3 MD5 R n opw upw ->
     let fk := alg2 MD5 R n upw (d_o d) (d_p d) id0 (d_em d) in
     d_u d = u_entry R fk id0 tail ->
     alg6 MD5 R n opw (d_o d) (d_u d) (d_p d) id0 (d_em d) = None ->      (* the owner password is not also accepted as user password *)
-    opens_with (FP fuel d id0 opw) n fk m (d_em d || (d_v d <? 4)%Z).
+    opens_with (FP fuel d id0 opw) n fk m ms (d_em d || (d_v d <? 4)%Z).
   Proof.
-    intros fuel d id0 upw opw R n m tail Hd HO fk HU Hnot. rewrite (from_password_rc4_entry fuel d id0 opw R n m Hd).
+    intros fuel d id0 upw opw R n m ms tail Hd HO fk HU Hnot. rewrite (from_password_rc4_entry fuel d id0 opw R n m ms Hd).
     destruct Hd as (Hcm & Hr & HR & Hn).
-    rewrite (from_password_rc4_refines R (8 * n) n m d id0 opw HR (div8 n) Hn).
+    rewrite (from_password_rc4_refines R (8 * n) n m ms d id0 opw HR (div8 n) Hn).
     rewrite Hnot. cbv zeta. pose proof (alg3_unwrap R n opw upw HR) as Hun. rewrite <- HO in Hun. rewrite Hun.
     rewrite alg6_unfold, alg2_take, alg2_pad, <- alg2_take. fold fk. rewrite HU, u_entry_matches.
-    eexists. split; [reflexivity|]. cbn [decoder_new k_size k_key k_method k_enc_obj k_meta_obj k_em].
+    eexists. split; [reflexivity|]. cbn [decoder_with k_size k_key k_method k_smethod k_enc_obj k_meta_obj k_em].
     rewrite app_nil_r. repeat split; reflexivity.
   Qed.
 
-  Theorem wrong_pw_rc4 : forall fuel d id0 pw R n m, std_rc4_dict d R n m ->
+  Theorem wrong_pw_rc4 : forall fuel d id0 pw R n m ms, std_rc4_dict d R n m ms ->
     alg6 MD5 R n pw (d_o d) (d_u d) (d_p d) id0 (d_em d) = None ->
     alg7 MD5 R n pw (d_o d) (d_u d) (d_p d) id0 (d_em d) = None ->
     FP fuel d id0 pw = Err E_INVALID_PASSWORD.
   Proof.
-    intros fuel d id0 pw R n m Hd H6 H7. rewrite (from_password_rc4_entry fuel d id0 pw R n m Hd).
+    intros fuel d id0 pw R n m ms Hd H6 H7. rewrite (from_password_rc4_entry fuel d id0 pw R n m ms Hd).
     destruct Hd as (Hcm & Hr & HR & Hn).
-    rewrite (from_password_rc4_refines R (8 * n) n m d id0 pw HR (div8 n) Hn).
+    rewrite (from_password_rc4_refines R (8 * n) n m ms d id0 pw HR (div8 n) Hn).
     rewrite H6. cbv zeta. unfold alg7 in H7. unfold rc4_passes. rewrite H7. reflexivity.
   Qed.
 
   (* acceptance coincides with the standard's Algorithms 6 and 7: a password is rejected iff both reject it *)
-  Theorem accepted_iff_rc4 : forall fuel d id0 pw R n m, std_rc4_dict d R n m ->
+  Theorem accepted_iff_rc4 : forall fuel d id0 pw R n m ms, std_rc4_dict d R n m ms ->
     (exists dc, FP fuel d id0 pw = Ok dc) <->
     (alg6 MD5 R n pw (d_o d) (d_u d) (d_p d) id0 (d_em d) <> None \/ alg7 MD5 R n pw (d_o d) (d_u d) (d_p d) id0 (d_em d) <> None).
   Proof.
-    intros fuel d id0 pw R n m Hd. rewrite (from_password_rc4_entry fuel d id0 pw R n m Hd).
+    intros fuel d id0 pw R n m ms Hd. rewrite (from_password_rc4_entry fuel d id0 pw R n m ms Hd).
     destruct Hd as (Hcm & Hr & HR & Hn).
-    rewrite (from_password_rc4_refines R (8 * n) n m d id0 pw HR (div8 n) Hn).
+    rewrite (from_password_rc4_refines R (8 * n) n m ms d id0 pw HR (div8 n) Hn).
     unfold alg7, rc4_passes. cbv zeta.
     destruct (alg6 MD5 R n pw (d_o d) (d_u d) (d_p d) id0 (d_em d)) eqn:E6.
     - split; [intros _; left; discriminate|intros _; eexists; reflexivity].
@@ -378,14 +378,18 @@ Section Refinement.
   Qed.
 
   (* ------------------------------------------------------------ per-object decryption inverts the writer's encryption *)
-  Definition decoder_for (dc : decoder) (fk : bytes) (m : method) : Prop :=
-    k_method dc = m /\
+  (* the decoder holds the file key in the way method [m] reads it (nothing to hold for the Identity filter) *)
+  Definition key_fits (dc : decoder) (fk : bytes) (m : method) : Prop :=
     match m with
-    | MNone => False
+    | MNone => True
     | MV2 => 1 <= lenN fk <= 16 /\ k_size dc = lenN fk /\ take (lenN fk) (k_key dc) = fk
     | MAESV2 => lenN fk = 16 /\ k_size dc = 16 /\ take 16 (k_key dc) = fk
     | MAESV3 => lenN fk = 32 /\ k_key dc = fk
     end.
+
+  (* [m]: the crypt filter of streams (/StmF), [ms]: the crypt filter of strings (/StrF); MNone = Identity *)
+  Definition decoder_for (dc : decoder) (fk : bytes) (m ms : method) : Prop :=
+    k_method dc = m /\ k_smethod dc = ms /\ key_fits dc fk m /\ key_fits dc fk ms.
 
   Lemma dkey_ok dc fk : 1 <= lenN fk <= 16 -> k_size dc = lenN fk -> take (lenN fk) (k_key dc) = fk -> dkey dc = Ok fk.
   Proof.
@@ -409,18 +413,20 @@ Section Refinement.
   Lemma aes_ct_len key iv data : lenN iv = 16 -> 16 <= lenN (iv ++ AESE key iv (pkcs7_pad data)).
   Proof. intros H. rewrite lenN_app, H. lia. Qed.
 
-  (** every string / stream a conforming writer stored for object (num, gen) — encrypted under Algorithm 1 / 1.A with any
-      16-byte IV, or left as it is for the exempt objects — is returned as the original bytes, for every object number,
-      generation and length *)
-  Theorem plaintext : forall dc fk m num gen iv data,
-    decoder_for dc fk m -> lenN iv = 16 ->
-    decrypt md5 aes_dec dc num gen
+  (** what a conforming writer stored for object (num, gen) under the crypt filter method [m] — encrypted under Algorithm 1 /
+      1.A with any 16-byte IV, left as it is for the Identity filter and for the exempt objects — is returned as the original
+      bytes by Decoder::decrypt_with for that method, for every object number, generation and length *)
+  Theorem plaintext_with : forall dc fk m num gen iv data,
+    key_fits dc fk m -> lenN iv = 16 ->
+    decrypt_with md5 aes_dec m dc num gen
       (protect_bytes MD5 AESE m fk (k_enc_obj dc) (k_meta_obj dc) (negb (k_em dc)) num gen iv data) = Ok data.
   Proof.
-    intros dc fk m num gen iv data [Hm Hd] Hiv. unfold decrypt, protect_bytes.
+    intros dc fk m num gen iv data Hd Hiv. unfold decrypt_with, protect_bytes.
     destruct (oref_is (k_enc_obj dc) num gen); [reflexivity|].
     destruct (negb (k_em dc) && oref_is (k_meta_obj dc) num gen); [reflexivity|].
-    rewrite Hm. destruct m; cbn [encrypt_obj]; [contradiction| | |].
+    destruct m; cbn [encrypt_obj key_fits] in *.
+    - (* Identity *)
+      destruct (lenN data =? 0); reflexivity.
     - (* RC4 *)
       destruct Hd as (Hn & Hs & Hk).
       destruct (lenN (rc4_raw (obj_key MD5 fk num gen false) data) =? 0) eqn:E0.
@@ -449,38 +455,97 @@ Section Refinement.
       rewrite Hk. apply aes_round_trip; [exact Hiv|right; exact Hn|symmetry; exact Hn].
   Qed.
 
-  (** the strings of the /Encrypt object and, when metadata encryption is off, the bytes of the /Metadata object are returned
-      unmodified whatever they are — for the decoder as installed by load_storage_and_trailer_password *)
+  (** streams: Decoder::decrypt (the /StmF method) returns the plaintext of every stream a conforming writer stored *)
+  Theorem plaintext : forall dc fk m ms num gen iv data,
+    decoder_for dc fk m ms -> lenN iv = 16 ->
+    decrypt md5 aes_dec dc num gen
+      (protect_bytes MD5 AESE m fk (k_enc_obj dc) (k_meta_obj dc) (negb (k_em dc)) num gen iv data) = Ok data.
+  Proof. intros dc fk m ms num gen iv data (Hm & _ & Hf & _) Hiv. unfold decrypt. rewrite Hm. apply plaintext_with; assumption. Qed.
+
+  (** strings: the parser's Context::decrypt (Decoder::decrypt_string, the /StrF method) returns the plaintext of every
+      string a conforming writer stored *)
+  Theorem plaintext_string : forall dc fk m ms num gen iv s,
+    decoder_for dc fk m ms -> lenN iv = 16 ->
+    ctx_decrypt md5 aes_dec (Some dc) num gen
+      (protect_bytes MD5 AESE ms fk (k_enc_obj dc) (k_meta_obj dc) (negb (k_em dc)) num gen iv s) = Ok s.
+  Proof.
+    intros dc fk m ms num gen iv s (_ & Hms & _ & Hf) Hiv. unfold ctx_decrypt, decrypt_string. rewrite Hms.
+    apply plaintext_with; assumption.
+  Qed.
+
+  (** Storage::decode: the stream's filters see the plaintext *)
+  Theorem plaintext_decode : forall filters dc fk m ms num gen iv data,
+    decoder_for dc fk m ms -> lenN iv = 16 ->
+    storage_decode md5 aes_dec filters (Some dc) num gen
+      (protect_bytes MD5 AESE m fk (k_enc_obj dc) (k_meta_obj dc) (negb (k_em dc)) num gen iv data) = filters data.
+  Proof.
+    intros filters dc fk m ms num gen iv data Hd Hiv. unfold storage_decode.
+    rewrite (plaintext dc fk m ms num gen iv data Hd Hiv). reflexivity.
+  Qed.
+
+  (** the strings and streams of the /Encrypt object and, when metadata encryption is off, of the /Metadata object are returned
+      unmodified whatever they are — for the decoder as installed by load_storage_and_trailer_password, by either method *)
   Theorem exempt : forall dc enc meta data,
-    (forall num gen, enc = Some (num, gen) -> decrypt md5 aes_dec (install dc enc meta) num gen data = Ok data) /\
-    (forall num gen, meta = Some (num, gen) -> k_em dc = false -> decrypt md5 aes_dec (install dc enc meta) num gen data = Ok data).
+    (forall num gen, enc = Some (num, gen) ->
+       decrypt md5 aes_dec (install dc enc meta) num gen data = Ok data /\
+       decrypt_string md5 aes_dec (install dc enc meta) num gen data = Ok data) /\
+    (forall num gen, meta = Some (num, gen) -> k_em dc = false ->
+       decrypt md5 aes_dec (install dc enc meta) num gen data = Ok data /\
+       decrypt_string md5 aes_dec (install dc enc meta) num gen data = Ok data).
   Proof.
     intros dc enc meta data. split; intros num gen ->.
-    - unfold decrypt, install; cbn [k_enc_obj k_meta_obj k_em oref_is]. rewrite !N.eqb_refl. reflexivity.
-    - intros Hem. unfold decrypt, install; cbn [k_enc_obj k_meta_obj k_em]. rewrite Hem.
-      destruct (oref_is enc num gen); [reflexivity|]. cbn [oref_is negb]. rewrite !N.eqb_refl. reflexivity.
+    - unfold decrypt, decrypt_string, decrypt_with, install; cbn [k_enc_obj k_meta_obj k_em oref_is]. rewrite !N.eqb_refl. split; reflexivity.
+    - intros Hem. unfold decrypt, decrypt_string, decrypt_with, install; cbn [k_enc_obj k_meta_obj k_em]. rewrite Hem.
+      destruct (oref_is enc num gen); [split; reflexivity|]. cbn [oref_is negb]. rewrite !N.eqb_refl. split; reflexivity.
   Qed.
 
   (* installation keeps the key material: a decoder that opens a document still fits after install *)
-  Lemma decoder_for_install dc fk m enc meta : decoder_for dc fk m -> decoder_for (install dc enc meta) fk m.
-  Proof. unfold decoder_for, install. cbn [k_method k_size k_key]. tauto. Qed.
-End Refinement.
+  Lemma decoder_for_install dc fk m ms enc meta : decoder_for dc fk m ms -> decoder_for (install dc enc meta) fk m ms.
+  Proof. unfold decoder_for, key_fits, install. cbn [k_method k_smethod k_size k_key]. tauto. Qed.
+  (* ------------------------------------------------------------ from opening to reading *)
+  (* which crypt filter methods can read a file key of n bytes *)
+  Definition meth_fits (n : N) (m : method) : Prop :=
+    match m with MNone => True | MV2 => 1 <= n <= 16 | MAESV2 => n = 16 | MAESV3 => n = 32 end.
 
-(** C06-b: the full statement also quantifies over the crypt filter named by /StrF; with /StrF /Identity the writer stores
-    strings as they are, and the reader model (which, like crypt.rs, applies /StmF's method to strings) does not return
-    them.  Witness: MD5 replaced by a constant function, AES by the identity, RC4 concrete. *)
-Lemma strf_refuted :
-  ~ (forall MD5 AESE AESD, (forall x, length (MD5 x) = 16%nat) ->
-     (forall k iv x, lenN x mod 16 = 0 -> AESD k iv (AESE k iv x) = x) -> (forall k iv x, lenN (AESE k iv x) = lenN x) ->
-     forall dc fk m (strf_identity : bool) num gen iv s, decoder_for dc fk m -> lenN iv = 16 ->
-     ctx_decrypt (fun x => Ok (MD5 x)) (fun k iv x => Ok (AESD k iv x)) (Some dc) num gen
-       (if strf_identity then s
-        else protect_bytes MD5 AESE m fk (k_enc_obj dc) (k_meta_obj dc) (negb (k_em dc)) num gen iv s) = Ok s).
-Proof.
-  intros H.
-  specialize (H (fun _ => repeatN 7 16) (fun _ _ x => x) (fun _ _ x => x) (fun _ => eq_refl) (fun _ _ _ _ => eq_refl) (fun _ _ _ => eq_refl)
-                (decoder_new (repeatN 1 16) 16 MV2 true) (repeatN 1 16) MV2 true 1 0 (repeatN 0 16) [65; 66; 67]).
-  assert (Hd : decoder_for (decoder_new (repeatN 1 16) 16 MV2 true) (repeatN 1 16) MV2).
-  { split; [reflexivity|]. vm_compute. intuition discriminate. }
-  specialize (H Hd eq_refl). vm_compute in H. discriminate.
-Qed.
+  (** a decoder that "opens with" the n-byte file key fits it for both of its methods — the premise of the plaintext theorems
+      (for a 32-byte key the decoder must hold exactly the key: AES-256 reads all of it) *)
+  Lemma opens_decoder_for r n fk m ms em : opens_with r n fk m ms em -> lenN fk = n ->
+    meth_fits n m -> meth_fits n ms -> (n = 32 -> exists dc, r = Ok dc /\ k_key dc = fk) ->
+    exists dc, r = Ok dc /\ decoder_for dc fk m ms /\ k_em dc = em.
+  Proof.
+    intros (dc & Hr & Hs & Hk & Hm & Hms & _ & _ & Hem) Hn Fm Fms H32.
+    exists dc. split; [exact Hr|]. split; [|exact Hem].
+    assert (Hfit : forall x, meth_fits n x -> key_fits dc fk x).
+    { intros x Hx. destruct x; cbn [meth_fits key_fits] in *.
+      - exact I.
+      - rewrite Hn. split; [lia|split; [exact Hs|exact Hk]].
+      - rewrite <- Hx, <- Hn. split; [reflexivity|]. rewrite Hn. split; [exact Hs|exact Hk].
+      - split; [lia|]. destruct (H32 Hx) as (dc' & Hr' & Hk'). rewrite Hr in Hr'. inversion Hr'; subst dc'. exact Hk'. }
+    repeat split; [exact Hm|exact Hms|apply Hfit; exact Fm|apply Hfit; exact Fms].
+  Qed.
+
+  (** revisions 2-4, end to end: a dictionary written by Algorithms 3-5 opens with the user password and then every stream
+      (under /StmF's method) and every string (under /StrF's method) a conforming writer stored reads back as its plaintext *)
+  Theorem open_user_rc4_reads : forall fuel d id0 upw R n m ms tail, std_rc4_dict d R n m ms ->
+    meth_fits n m -> meth_fits n ms ->
+    let fk := alg2 MD5 R n upw (d_o d) (d_p d) id0 (d_em d) in
+    d_u d = u_entry R fk id0 tail ->
+    exists dc, FP fuel d id0 upw = Ok dc /\
+      forall enc meta num gen iv data, lenN iv = 16 ->
+        let dc' := install dc enc meta in
+        decrypt md5 aes_dec dc' num gen (protect_bytes MD5 AESE m fk enc meta (negb (k_em dc)) num gen iv data) = Ok data /\
+        ctx_decrypt md5 aes_dec (Some dc') num gen (protect_bytes MD5 AESE ms fk enc meta (negb (k_em dc)) num gen iv data) = Ok data.
+  Proof.
+    intros fuel d id0 upw R n m ms tail Hd Fm Fms fk HU.
+    pose proof (open_user_rc4 fuel d id0 upw R n m ms tail Hd HU) as Ho. fold fk in Ho.
+    destruct Hd as (_ & _ & _ & Hn).
+    assert (Lfk : lenN fk = n).
+    { unfold fk. rewrite alg2_take. apply lenN_take. rewrite alg2_full_len. lia. }
+    destruct (opens_decoder_for _ _ _ _ _ _ Ho Lfk Fm Fms) as (dc & Hr & Hfor & _); [intros ->; lia|].
+    exists dc. split; [exact Hr|]. intros enc meta num gen iv data Hiv dc'.
+    pose proof (decoder_for_install dc fk m ms enc meta Hfor) as Hfor'. fold dc' in Hfor'.
+    split.
+    - exact (plaintext dc' fk m ms num gen iv data Hfor' Hiv).
+    - exact (plaintext_string dc' fk m ms num gen iv data Hfor' Hiv).
+  Qed.
+End Refinement.
